@@ -55,7 +55,7 @@ def observe_layers(torch, seq):
     out = []
     for m in seq:
         if isinstance(m, torch.nn.Linear):
-            out.append(('L', m.in_features, m.out_features, m.bias is not None))
+            out.append(('L', int(m.in_features), int(m.out_features), m.bias is not None))
         else:
             out.append(('A', type(m).__name__))
     return out
@@ -94,6 +94,40 @@ def expected_hidden(cfg):
     return [h] * (L + 1)
 
 
+HIDDEN_KINDS = ['tuple', 'list', 'range', 'ndarray', 'genexp', 'map', 'iter', 'dictkeys', 'np_ints']
+
+
+def make_hidden(kind, hidden):
+    """The same widths in the requested container / number kind (one-shot iterators included)."""
+    import numpy as np
+    hidden = [int(w) for w in hidden]
+    if kind == 'list':
+        return list(hidden)
+    if kind == 'range':
+        if not hidden:
+            return range(0)
+        if hidden == list(range(hidden[0], hidden[0] + len(hidden))):
+            return range(hidden[0], hidden[0] + len(hidden))
+    if kind == 'ndarray':
+        return np.array(hidden, dtype=np.int64)
+    if kind == 'genexp':
+        return (w for w in hidden)
+    if kind == 'map':
+        return map(int, [str(w) for w in hidden])
+    if kind == 'iter':
+        return iter(list(hidden))
+    if kind == 'dictkeys' and len(set(hidden)) == len(hidden):
+        return dict.fromkeys(hidden).keys()
+    if kind == 'np_ints':
+        return tuple(np.int64(w) if i % 2 == 0 else np.int32(w) for i, w in enumerate(hidden))
+    return tuple(hidden)
+
+
+def num(cfg, v):
+    import numpy as np
+    return np.int64(v) if (cfg.get('num_kind') == 'np' and v is not None) else v
+
+
 def gen_arch_cfg(r, ci):
     cls = 'Resnet' if ci % 4 == 3 else 'FCNN'
     n_in, n_out = r.randint(1, 5), r.randint(1, 5)
@@ -101,8 +135,14 @@ def gen_arch_cfg(r, ci):
         if cls == 'FCNN' else r.choice(['tuple', 'tuple', 'list', 'none'])
     wmax = r.choice([4, 16, 64])
     hidden = [r.randint(1, wmax) for _ in range(r.randint(0, 4))]
+    kind = 'list' if form == 'list' else (r.choice(HIDDEN_KINDS) if ci % 2 == 0 else 'tuple')
+    if kind == 'range':
+        h0 = r.randint(1, max(1, wmax - 4))
+        hidden = list(range(h0, h0 + len(hidden)))
+    if kind == 'dictkeys':
+        hidden = list(dict.fromkeys(hidden))
     cfg = {'cls': cls, 'n_in': n_in, 'n_out': n_out, 'act': r.choice(ACTS), 'form': form, 'nhu': None, 'nhl': None, 'hidden': None,
-           'hidden_is_list': form == 'list'}
+           'hidden_kind': kind, 'num_kind': 'np' if ci % 5 == 1 else 'int', 'actv_kind': r.choice(['class', 'class', 'lambda', 'partial'])}
     if form in ('tuple', 'list', 'legacy_and_hidden'):
         cfg['hidden'] = hidden
     if form in ('legacy_both', 'legacy_h', 'legacy_and_hidden'):
@@ -113,24 +153,29 @@ def gen_arch_cfg(r, ci):
 
 
 def build_net(torch, N, cfg):
+    import functools
     kw = {}
     if cfg['hidden'] is not None:
-        kw['hidden_units'] = list(cfg['hidden']) if cfg['hidden_is_list'] else tuple(cfg['hidden'])
+        kw['hidden_units'] = make_hidden(cfg.get('hidden_kind', 'tuple'), cfg['hidden'])
     if cfg['nhu'] is not None:
-        kw['n_hidden_units'] = cfg['nhu']
+        kw['n_hidden_units'] = num(cfg, cfg['nhu'])
     if cfg['nhl'] is not None:
-        kw['n_hidden_layers'] = cfg['nhl']
+        kw['n_hidden_layers'] = num(cfg, cfg['nhl'])
     a = act_class(torch, N, cfg['act'])
     if a is not None:
-        kw['actv'] = a
+        # the activation layer *constructor*: the class itself or any zero-argument factory of it
+        ak = cfg.get('actv_kind', 'class')
+        kw['actv'] = a if ak == 'class' else ((lambda: a()) if ak == 'lambda' else functools.partial(a))
     with warnings.catch_warnings():
         warnings.simplefilter('ignore')
-        return getattr(N, cfg['cls'])(n_input_units=cfg['n_in'], n_output_units=cfg['n_out'], **kw)
+        return getattr(N, cfg['cls'])(n_input_units=num(cfg, cfg['n_in']), n_output_units=num(cfg, cfg['n_out']), **kw)
 
 
 def check_arch(ck, torch, N, cfg, cases, do_model=True):
     """Oracle on the real module + model / translator correspondence for one configuration."""
     key = f"{cfg['cls']}/{cfg['form']}"
+    if cfg.get('hidden') is not None and cfg.get('hidden_kind', 'tuple') not in ('tuple', 'list'):
+        key += f"/hidden_units={cfg['hidden_kind']}"
     try:
         net = build_net(torch, N, cfg)
     except Exception as e:
@@ -164,7 +209,8 @@ def check_arch(ck, torch, N, cfg, cases, do_model=True):
     if n_par != n_lin and obs == exp:
         ck.fail(f'{key}/extra-parameters', 'network has trainable parameters besides the Linear weights although no trainable activation was requested',
                 inp, expected=n_lin, actual=n_par)
-    ck.add_case((cfg['cls'], cfg['n_in'], cfg['n_out'], cfg['form'], cfg['nhu'], cfg['nhl'], tuple(cfg['hidden'] or ()), cfg['act']),
+    ck.add_case((cfg['cls'], cfg['n_in'], cfg['n_out'], cfg['form'], cfg['nhu'], cfg['nhl'], tuple(cfg['hidden'] or ()), cfg['act'],
+                 cfg.get('hidden_kind'), cfg.get('num_kind'), cfg.get('actv_kind')),
                 nontrivial=True)
     if not do_model:
         return net
@@ -178,7 +224,7 @@ def check_arch(ck, torch, N, cfg, cases, do_model=True):
         cases.append((label, f'layers_eqb (fst (resnet_init {args})) {coq_layers(obs)} && layer_eqb (snd (resnet_init {args})) ({skc})'))
     # ---- pyfront's reading of the constructor source
     try:
-        hidden_arg = 'absent' if cfg['hidden'] is None else (list(cfg['hidden']) if cfg['hidden_is_list'] else tuple(cfg['hidden']))
+        hidden_arg = 'absent' if cfg['hidden'] is None else (list(cfg['hidden']) if cfg.get('hidden_kind') == 'list' else tuple(cfg['hidden']))
         src_layers, src_skip = interp_layers(REPO, cfg['cls'], cfg['n_in'], cfg['n_out'], cfg['nhu'], cfg['nhl'], hidden_arg)
         src_obs = [(l[0], l[1], l[2], l[3]) if l[0] == 'L' else ('A', aname) for l in src_layers]
         ck.traces += 1
@@ -417,20 +463,33 @@ def run(ck, res, n_arch, n_fwd, n_act, n_mono, n_goals, do_model=True):
     r = ck.rng('arch', n_arch)
     # fixed corner configurations first, then random ones
     corner = [
-        {'cls': 'FCNN', 'n_in': 1, 'n_out': 1, 'act': 'default', 'form': 'none', 'nhu': None, 'nhl': None, 'hidden': None, 'hidden_is_list': False},
-        {'cls': 'FCNN', 'n_in': 2, 'n_out': 3, 'act': 'Swish', 'form': 'tuple', 'nhu': None, 'nhl': None, 'hidden': [], 'hidden_is_list': False},
-        {'cls': 'FCNN', 'n_in': 5, 'n_out': 5, 'act': 'APTx', 'form': 'tuple', 'nhu': None, 'nhl': None, 'hidden': [64, 1, 64, 2], 'hidden_is_list': False},
-        {'cls': 'FCNN', 'n_in': 2, 'n_out': 3, 'act': 'SinActv', 'form': 'legacy_both', 'nhu': 5, 'nhl': 0, 'hidden': None, 'hidden_is_list': False},
-        {'cls': 'FCNN', 'n_in': 2, 'n_out': 3, 'act': 'Tanh', 'form': 'legacy_both', 'nhu': 7, 'nhl': 3, 'hidden': None, 'hidden_is_list': False},
-        {'cls': 'FCNN', 'n_in': 3, 'n_out': 1, 'act': 'default', 'form': 'legacy_L', 'nhu': None, 'nhl': 2, 'hidden': None, 'hidden_is_list': False},
-        {'cls': 'FCNN', 'n_in': 3, 'n_out': 1, 'act': 'default', 'form': 'legacy_h', 'nhu': 9, 'nhl': None, 'hidden': None, 'hidden_is_list': False},
-        {'cls': 'Resnet', 'n_in': 4, 'n_out': 2, 'act': 'Swish', 'form': 'tuple', 'nhu': None, 'nhl': None, 'hidden': [8, 3], 'hidden_is_list': False},
-        {'cls': 'Resnet', 'n_in': 1, 'n_out': 1, 'act': 'default', 'form': 'none', 'nhu': None, 'nhl': None, 'hidden': None, 'hidden_is_list': False},
-        {'cls': 'Resnet', 'n_in': 2, 'n_out': 5, 'act': 'APTx', 'form': 'tuple', 'nhu': None, 'nhl': None, 'hidden': [], 'hidden_is_list': False},
+        {'cls': 'FCNN', 'n_in': 1, 'n_out': 1, 'act': 'default', 'form': 'none', 'nhu': None, 'nhl': None, 'hidden': None, 'hidden_kind': 'tuple'},
+        {'cls': 'FCNN', 'n_in': 2, 'n_out': 3, 'act': 'Swish', 'form': 'tuple', 'nhu': None, 'nhl': None, 'hidden': [], 'hidden_kind': 'tuple'},
+        {'cls': 'FCNN', 'n_in': 5, 'n_out': 5, 'act': 'APTx', 'form': 'tuple', 'nhu': None, 'nhl': None, 'hidden': [64, 1, 64, 2], 'hidden_kind': 'tuple'},
+        {'cls': 'FCNN', 'n_in': 2, 'n_out': 3, 'act': 'SinActv', 'form': 'legacy_both', 'nhu': 5, 'nhl': 0, 'hidden': None, 'hidden_kind': 'tuple'},
+        {'cls': 'FCNN', 'n_in': 2, 'n_out': 3, 'act': 'Tanh', 'form': 'legacy_both', 'nhu': 7, 'nhl': 3, 'hidden': None, 'hidden_kind': 'tuple'},
+        {'cls': 'FCNN', 'n_in': 3, 'n_out': 1, 'act': 'default', 'form': 'legacy_L', 'nhu': None, 'nhl': 2, 'hidden': None, 'hidden_kind': 'tuple'},
+        {'cls': 'FCNN', 'n_in': 3, 'n_out': 1, 'act': 'default', 'form': 'legacy_h', 'nhu': 9, 'nhl': None, 'hidden': None, 'hidden_kind': 'tuple'},
+        {'cls': 'Resnet', 'n_in': 4, 'n_out': 2, 'act': 'Swish', 'form': 'tuple', 'nhu': None, 'nhl': None, 'hidden': [8, 3], 'hidden_kind': 'tuple'},
+        {'cls': 'Resnet', 'n_in': 1, 'n_out': 1, 'act': 'default', 'form': 'none', 'nhu': None, 'nhl': None, 'hidden': None, 'hidden_kind': 'tuple'},
+        {'cls': 'Resnet', 'n_in': 2, 'n_out': 5, 'act': 'APTx', 'form': 'tuple', 'nhu': None, 'nhl': None, 'hidden': [], 'hidden_kind': 'tuple'},
     ]
+    for kind in HIDDEN_KINDS:
+        hid = [3, 4, 5] if kind == 'range' else [5, 7, 2]
+        for cls_, extra in (('FCNN', {}), ('Resnet', {}), ('FCNN', {'nhu': 9, 'nhl': 1, 'form': 'legacy_and_hidden'})):
+            c = {'cls': cls_, 'n_in': 2, 'n_out': 3, 'act': 'default', 'form': 'list' if kind == 'list' else 'tuple', 'nhu': None, 'nhl': None,
+                 'hidden': list(hid), 'hidden_kind': kind, 'num_kind': 'np' if kind in ('ndarray', 'np_ints') else 'int', 'actv_kind': 'class'}
+            c.update(extra)
+            corner.append(c)
+    corner.append({'cls': 'FCNN', 'n_in': 2, 'n_out': 3, 'act': 'SinActv', 'form': 'legacy_both', 'nhu': 5, 'nhl': 2, 'hidden': None,
+                   'hidden_kind': 'tuple', 'num_kind': 'np', 'actv_kind': 'lambda'})
+    corner.append({'cls': 'Resnet', 'n_in': 3, 'n_out': 1, 'act': 'Swish', 'form': 'tuple', 'nhu': None, 'nhl': None, 'hidden': [],
+                   'hidden_kind': 'genexp', 'num_kind': 'int', 'actv_kind': 'partial'})
     cfgs = corner + [gen_arch_cfg(r, ci) for ci in range(n_arch)]
     for ci, cfg in enumerate(cfgs):
         dist[f"arch:{cfg['cls']}/{cfg['form']}"] = dist.get(f"arch:{cfg['cls']}/{cfg['form']}", 0) + 1
+        if cfg.get('hidden') is not None:
+            dist[f"hidden_kind:{cfg.get('hidden_kind')}"] = dist.get(f"hidden_kind:{cfg.get('hidden_kind')}", 0) + 1
         check_arch(ck, torch, N, cfg, cases, do_model=do_model)
         if ci < 4:
             ck.sample({'kind': 'arch', 'cfg': cfg})
@@ -494,7 +553,8 @@ def replay(ck, path):
 
 def main():
     ck = Check('C19')
-    ck.rule = ('cases = FCNN/Resnet configurations (n_in, n_out in 1..5; hidden_units of length 0..4, widths 1..64, tuple or list; the '
+    ck.rule = ('cases = FCNN/Resnet configurations (n_in, n_out in 1..5; hidden_units of length 0..4, widths 1..64, given as tuple, list, range, '
+               'ndarray, generator expression, map, iter, dict keys view or numpy ints; sizes as int or numpy int; actv as class or zero-argument factory; the '
                'deprecated argument forms; every shipped activation) + forward batches (sizes 1,2,3,7,33, dyadic inputs in [-10,10]) + '
                'activation modules (random dyadic parameters, trainable or not) + MonomialNN (int or list degrees); distinct = distinct '
                'configuration/input tuples; non-trivial = at least one hidden layer or more than one row')
